@@ -1,10 +1,253 @@
 import Driver.Common
-/-! Driver ops of this group; `handle op args` returns `none` for ops it does not know. -/
+import GoSSE.Spec.Message
+/-! Driver ops of the message side (C02, C14, C15, C19); `handle op args` returns `none` for
+ops it does not know.
+
+Message script (one token): ops joined by `;` (`-` = none):
+`d:<hexlist>` AppendData, `c:<hexlist>` AppendComment, `i:<hex>` `m.ID, _ = NewID`,
+`t:<hex>` `m.Type, _ = NewType`, `r:<int>` Retry in ns. -/
 namespace Driver.MessageD
-open GoSSE Driver
+open GoSSE GoSSE.Spec GoSSE.Model Driver
+
+def splitFirst (s : String) (c : Char) : String × String :=
+  match s.splitOn (String.singleton c) with
+  | [] => ("", "")
+  | a :: rest => (a, (String.singleton c).intercalate rest)
+
+def parseBuildOp (s : String) : Option BuildOp :=
+  let (k, v) := splitFirst s ':'
+  match k with
+  | "d" => some (.appendData (unhexList v))
+  | "c" => some (.appendComment (unhexList v))
+  | "i" => some (.setID (unhex v))
+  | "t" => some (.setType (unhex v))
+  | "r" => (parseInt? v).map .setRetry
+  | _ => none
+
+def parseMsg (s : String) : List BuildOp :=
+  if s == "-" then [] else (s.splitOn ";").filterMap parseBuildOp
+
+def showEvent (e : Event) : String := s!"E {hex e.lastEventID} {hex e.type} {hex e.data}"
+def showOuts (o : List Out) : String :=
+  let ev := o.filterMap fun x => match x with | .event e => some (showEvent e) | _ => none
+  if ev.isEmpty then "-" else ";".intercalate ev
+def showPErr : PErr → String
+  | .none => "nil" | .eof => "EOF" | .unexpectedEOF => "UEOF" | .read => "READ" | .tooLong => "TOOLONG"
+def showEnd : EndCond → String
+  | .clean => "nil" | .unexpectedEOF => "UEOF" | .readErr => "READ"
+
+def goField (args : List String) : String :=
+  match args.getLast? with
+  | some g => if g.startsWith "GO=" then (g.drop 3).toString else ""
+  | none => ""
+
+def dropGo (args : List String) : List String := args.filter fun a => !a.startsWith "GO="
+
+/-- `ENC <msg> <msg> …` -/
+def enc (args : List String) : String × String :=
+  let go := goField args
+  let scripts := (dropGo args).map parseMsg
+  let ms := scripts.map build
+  let bytes := ms.flatMap fun m => (m.writeTo bufWriter []).st
+  let agree := ms.all fun m =>
+    let r := m.writeTo bufWriter []
+    r.n == r.st.length && m.marshalText == r.st && m.string == r.st && r.st == m.encode && !r.panic
+  let dec := implRun false [] { chunks := [bytes].filter (!·.isEmpty), endErr := false } none
+  let goBytes := unhex ((go.splitOn " | ").headD "-")
+  let sg := Spec.run .gosse false [] goBytes .eof
+  let sw := Spec.run .whatwg false [] goBytes .eof
+  let bs := scripts.map describe
+  (s!"{hex bytes} | {showBool agree} | {showOuts dec.1} | {showPErr dec.2.1}",
+   s!"{showOuts sg.1} | {showEnd sg.2} | {showOuts sw.1} | {showEnd sw.2} | {showOuts (expected .gosse [] bs)} | {showOuts (expected .whatwg [] bs)}")
+
+/-- fault-injecting writer: call number `k` accepts `min j len(p)` bytes and fails if `e` or short -/
+def faultWriter (k : Option Nat) (j : Nat) (e : Bool) : Writer Nat Unit :=
+  ⟨fun idx p =>
+    if some idx == k then (min j p.length, if e || j < p.length then some () else none, idx + 1)
+    else (p.length, none, idx + 1)⟩
+
+def showWR (r : WR Nat Unit) : String :=
+  let e := if r.panic then "PANIC" else if r.err.isSome then "FAULT" else "nil"
+  s!"{r.n} | {e} | {hex (accepted r.log)} | {r.log.length}"
+
+/-- `WT <msg> <k|-> <j> <e>` -/
+def wt (args : List String) : String × String :=
+  match dropGo args with
+  | [ms, k, j, e] =>
+    let m := build (parseMsg ms)
+    let w := faultWriter k.toNat? (j.toNat?.getD 0) (boolOf e)
+    (showWR (m.writeTo w 0), showWR (writeAll w { n := 0, err := none, st := 0, log := [] } m.writes))
+  | _ => ("bad-args", "bad-args")
+
+def showField (f : MField) : String := if f.set then "s:" ++ hex f.value else "u"
+def showUErr : UErr → String
+  | .nil => "nil" | .retryNonDigit => "RETRY-NONDIGIT" | .retrySyntax => "RETRY-SYNTAX"
+  | .retryRange => "RETRY-RANGE" | .unexpectedEOF => "UEOF"
+def showMsg (m : Message) : String :=
+  s!"I={showField m.id} T={showField m.typ} R={m.retry} W={hex m.encode}"
+
+/-- `RT <msg>` -/
+def rt (args : List String) : String × String :=
+  match dropGo args with
+  | [ms] =>
+    let m := build (parseMsg ms)
+    let r := Message.unmarshalText m.encode
+    let applicable := hasField m && !(m.id.set && m.id.value.contains 0)
+    (s!"{showUErr r.2} | {showMsg r.1}",
+     if applicable then s!"nil | {showMsg (normalise m)}" else "n/a")
+  | _ => ("bad-args", "bad-args")
+
+def nlFree (v : Bytes) : Bool := !hasNewline v
+
+/-- fields of `I=… T=… R=… W=…` -/
+def kv (s : String) (key : String) : String :=
+  match (s.splitOn " ").find? (·.startsWith (key ++ "=")) with
+  | some t => (t.drop (key.length + 1)).toString
+  | none => ""
+
+def fieldOfShow (s : String) : MField :=
+  if s.startsWith "s:" then { value := unhex (s.drop 2).toString, set := true } else {}
+
+/-- `UT <hex text>`: `Message.UnmarshalText` on arbitrary text -/
+def ut (args : List String) : String × String :=
+  let go := goField args
+  match dropGo args with
+  | [t] =>
+    let r := Message.unmarshalText (unhex t)
+    let gm := ((go.splitOn " | ").drop 1).headD ""
+    let gi := fieldOfShow (kv gm "I")
+    let gt := fieldOfShow (kv gm "T")
+    let v := if gi.set && hasNewline gi.value then "bad:id-multiline"
+             else if gt.set && hasNewline gt.value then "bad:type-multiline" else "ok"
+    (s!"{showUErr r.2} | {showMsg r.1}", v)
+  | _ => ("bad-args", "bad-args")
+
+def showFErr : FErr → String
+  | .nil => "nil" | .json => "JSON" | .multiline => "MULTILINE" | .unsupported => "UNSUP"
+
+def isJSONSpace (b : Byte) : Bool := b == 32 || b == 9 || b == 10 || b == 13
+def trimJSON (d : Bytes) : Bytes := ((d.dropWhile isJSONSpace).reverse.dropWhile isJSONSpace).reverse
+
+def prevField : MField := { value := [112, 114, 101, 118], set := true }
+
+/-- the wire form of a message carrying the field as ID (`isType = false`) or type -/
+def wireOf (isType : Bool) (f : MField) : Bytes :=
+  (if isType then ({ typ := f } : Message) else ({ id := f } : Message)).encode
+
+/-- C14's demand, judged on what the real code returned (`set`, `val`, `err`, `wire`).
+`input` is the string the route was given where there is one; `hasErr` whether the route can
+report an error. -/
+def fieldVerdict (isType : Bool) (input : Option Bytes) (hasErr : Bool) (g : MField) (gerr : String) (gwire : Bytes) : String :=
+  if g.set && hasNewline g.value then "bad:set-multiline"
+  else if (match input with | some i => hasNewline i && g.set | none => false) then "bad:multiline-input-set"
+  else if (match input with | some i => hasNewline i && hasErr && gerr == "nil" | none => false) then "bad:multiline-input-no-error"
+  else
+    -- the wire form of a message carrying it: exactly that one field, decoded as such
+    let b : Built := if !g.set then {} else if isType then { typ := some g.value } else { id := some g.value }
+    let sr := Spec.run .gosse false [] gwire .eof
+    if sr != (expected .gosse [] [b], .clean) then "bad:wire-injects"
+    else "ok"
+
+/-- `FLD <route> <args…>` -/
+def fld (args : List String) : String × String :=
+  let go := goField args
+  let gparts := go.splitOn " "
+  let g : MField := if gparts.headD "" == "1" then { value := unhex ((gparts.drop 1).headD "-"), set := true } else {}
+  let gerr := (gparts.drop 2).headD ""
+  let gwire := unhex (kv go "W")
+  let gj := kv go "J"
+  let out (isType : Bool) (f : MField) (e : String) (j : String) : String :=
+    s!"{showBool f.set} {hex f.value} {e} W={hex (wireOf isType f)}" ++ (if j.isEmpty then "" else " J=" ++ j)
+  let a := dropGo args
+  let route := a.headD ""
+  let isType := route.endsWith "type"
+  let arg1 := (a.drop 1).headD "-"
+  let arg2 := (a.drop 2).headD "-"
+  let v := fun (input : Option Bytes) (hasErr : Bool) => fieldVerdict isType input hasErr g gerr gwire
+  if route == "newid" || route == "newtype" then
+    let r := newID (unhex arg1)
+    (out isType r.1 (if r.2 then "MULTILINE" else "nil") "", v (some (unhex arg1)) true)
+  else if route == "id" || route == "type" then
+    match mustID (unhex arg1) with
+    | some f => (out isType f "nil" "", v (some (unhex arg1)) true)
+    | none => (out isType {} "PANIC" "", v (some (unhex arg1)) true)
+  else if route == "utext-id" || route == "utext-type" then
+    let r := MField.unmarshalText prevField (unhex arg1)
+    (out isType r.1 (if r.2 then "MULTILINE" else "nil") "", v (some (unhex arg1)) true)
+  else if route == "json-id" || route == "json-type" then
+    let dec := if gj == "!" || gj == "" then none else some (unhex gj)
+    let r := MField.unmarshalJSON prevField (unhex arg1) dec
+    (out isType r.1 (showFErr r.2) gj, v dec true)
+  else if route == "jsonstd-id" || route == "jsonstd-type" then
+    -- J=<valid>:<decoded|!>; `encoding/json` leaves the receiver alone when the document is invalid
+    let (valid, d) := splitFirst gj ':'
+    let dec := if d == "!" || d == "" then none else some (unhex d)
+    if valid != "1" then (out isType prevField "JSON" gj, v none true)
+    else
+      let r := MField.unmarshalJSON prevField (trimJSON (unhex arg1)) dec
+      (out isType r.1 (showFErr r.2) gj, v dec true)
+  else if route == "scan-id" || route == "scan-type" then
+    let src : ScanSrc := match arg1 with
+      | "nil" => .nil | "bytes" => .bytes (unhex arg2) | "string" => .string (unhex arg2) | _ => .other
+    let r := MField.scan prevField src
+    let input := match src with | .bytes b => some b | .string b => some b | _ => none
+    (out isType r.1 (showFErr r.2) "", v input true)
+  else if route == "hdr" then
+    -- `hdr <c|l|s> <hexlist>`: only the canonical key is looked at
+    let vals := unhexList arg2
+    let h := if arg1 == "l" then [] else vals
+    let f := upgradeLastEventID h
+    (out false f "nil" "", fieldVerdict false (if arg1 == "l" then none else vals.head?) false g gerr gwire)
+  else ("bad-route", "bad-route")
+
+/-! ### C19 -/
+
+def parseFOp (s : String) : Option FOp :=
+  let (k, v) := splitFirst s ':'
+  let idx := (k.drop 1).toString.toNat?
+  match (k.take 1).toString, idx with
+  | "D", some i => some (.appendData i (unhexList v))
+  | "C", some i => some (.appendComment i (unhexList v))
+  | "I", some i => some (.setID i (unhex v))
+  | "T", some i => some (.setType i (unhex v))
+  | "R", some i => (parseInt? v).map (.setRetry i)
+  | "K", some i => some (.clone i)
+  | "P", some i => (v.toNat?.filter (· < 4)).map (.put i)
+  | _, _ => none
+
+def showPut : PutRes → String
+  | .errNoID => "N" | .errHasID => "H" | .same i => s!"={i}" | .fresh k => s!"+{k}" | .panic => "PANIC"
+def showPuts (p : List PutRes) : String := if p.isEmpty then "-" else ",".intercalate (p.map showPut)
+def showSnap (ms : List Message) : String := hexList (ms.map Message.encode)
+
+/-- growth policy of the model run: roughly Go's doubling (the theorems hold for every policy) -/
+def goLikeExtra (_ : Nat) : Nat := 3
+
+/-- `FAM <script>`: a snapshot of every member's encoding after every op -/
+def fam (args : List String) : String × String :=
+  match dropGo args with
+  | [script] =>
+    let ops := if script == "-" then [] else (script.splitOn ";").filterMap parseFOp
+    let stepH := fun (acc : FamState × List String) (op : FOp) =>
+      let st := acc.1.step goLikeExtra op
+      (st, acc.2 ++ [showSnap st.views])
+    let h := ops.foldl stepH (({} : FamState), [])
+    let stepP := fun (acc : PureState × List String) (op : FOp) =>
+      let st := acc.1.step op
+      (st, acc.2 ++ [showSnap st.fam])
+    let p := ops.foldl stepP (({} : PureState), [])
+    let j := fun (l : List String) => if l.isEmpty then "-" else ";".intercalate l
+    (s!"{j h.2} | {showPuts h.1.puts}", s!"{j p.2} | {showPuts p.1.puts}")
+  | _ => ("bad-args", "bad-args")
 
 def handle (op : String) (args : List String) : Option (String × String) :=
-  match op, args with
-  | _, _ => none
+  match op with
+  | "ENC" => some (enc args)
+  | "WT" => some (wt args)
+  | "RT" => some (rt args)
+  | "UT" => some (ut args)
+  | "FLD" => some (fld args)
+  | "FAM" => some (fam args)
+  | _ => none
 
 end Driver.MessageD
